@@ -268,3 +268,68 @@ func VerifC01HistogramKernel() {
 	verifrt.Assert("c01.histogram.idle-pass-delivers-nothing", count() == 2)
 	verifrt.Reach("c01.histogram.end")
 }
+
+// VerifC01RetiredHandle: a caller may keep a Counter of a subscope that was closed, reported
+// for the last time and dropped.  Whatever it does with that handle afterwards, the deliveries
+// of every live counter still add up to exactly the increments applied to that counter - before
+// or after the live counter was created (sequential; plain and cached reporter).
+func VerifC01RetiredHandle() {
+	rec := &vReporter{}
+	crec := &vCachedReporter{}
+	cached := verifrt.Choose("cached", 2) == 1
+	opts := ScopeOptions{OmitCardinalityMetrics: true, registryShardCount: 1}
+	if cached {
+		opts.CachedReporter = crec
+	} else {
+		opts.Reporter = rec
+	}
+	root := newRootScope(opts, 0)
+	a, b, c, d := verifrt.Int64("inc"), verifrt.Int64("inc"), verifrt.Int64("inc"), verifrt.Int64("inc")
+	old := root.SubScope("a")
+	h := old.Counter("c")
+	h.Inc(a)
+	old.(*scope).Close()
+	root.reportRegistry() // last report of "a", then it is dropped
+	lateFirst := verifrt.Choose("late-increment-before-creation", 2) == 1
+	if lateFirst {
+		h.Inc(b)
+	}
+	live := root.SubScope("b").Counter("d")
+	live.Inc(c)
+	if !lateFirst {
+		h.Inc(b)
+	}
+	root.reportRegistry()
+	live.Inc(d)
+	h.Inc(b)
+	root.reportRegistry()
+	var gotOld, gotLive int64
+	if cached {
+		for _, cl := range crec.calls {
+			if cl.kind != "counter" {
+				continue
+			}
+			switch crec.allocs[cl.alloc].name {
+			case "a.c":
+				gotOld += cl.i
+			case "b.d":
+				gotLive += cl.i
+			}
+		}
+	} else {
+		for _, cl := range rec.calls {
+			if cl.kind != "counter" {
+				continue
+			}
+			switch cl.name {
+			case "a.c":
+				gotOld += cl.i
+			case "b.d":
+				gotLive += cl.i
+			}
+		}
+	}
+	verifrt.Assert("c01.retired-handle.live-counter-delivers-exactly-its-own-increments", gotLive == c+d)
+	verifrt.Assert("c01.retired-handle.closed-scope-delivered-what-was-applied-before-close", gotOld == a)
+	verifrt.Reach("c01.retired-handle.end")
+}
